@@ -56,3 +56,63 @@ package server
 //@   ensures [C36.tail_nonpositive_limit] limit <= 0 ==> sameSlice(result, rows)
 //@   ensures [C36.tail_grows_until_limit] limit > 0 && len(rows) < limit ==> len(result) == len(rows) + 1 && result[len(rows)] == row && (forall k int :: 0 <= k && k < len(rows) ==> result[k] == old(rows[k]))
 //@   ensures [C36.tail_shifts_at_limit] limit > 0 && len(rows) >= limit ==> len(result) == len(rows) && result[len(rows)-1] == row && (forall k int :: 0 <= k && k < len(rows) - 1 ==> result[k] == old(rows[k+1]))
+
+// ---- handleSelect: the row filter ----
+// Callees that are not part of the row filter are taken modularly (their effect is havocked, nothing is assumed
+// about their results), so that handleSelect can be explored path by path.
+//@ func (s *Server) handleJoinSelect
+//@   nullable collector
+//@   modular
+//@ func (s *Server) handleAggregateSelect
+//@   nullable timeMin, timeMax, collector
+//@   modular
+//@ func (s *Server) resolveSelectColumns
+//@   modular
+//@ func buildRowDescription
+//@   modular
+//@ func buildRowValues
+//@   modular
+//@ func (s *Server) send
+//@   nullable collector
+//@   modular
+//@ func parseLimit
+//@   modular
+//@ func parseDuration
+//@   modular
+//@ func (s *Server) getLister
+//@   modular
+//@ func (s *Server) getDecoder
+//@   modular
+//@ func (s *Server) enforceScanLimits
+//@   modular
+//@ func estimateBytes
+//@   modular
+//@ func hasAggregates
+//@   modular
+//@ func commandTag
+//@   modular
+
+// rowMatches: the four comparisons of the statement (time and offset bounds; nil = unbounded).
+//@ spec func rowMatches(ts int64, off int64, tmin *int64, tmax *int64, omin *int64, omax *int64) bool = inBounds(ts, tmin, tmax) && inBounds(off, omin, omax)
+
+//@ func (s *Server) handleSelect
+//@   nullable collector
+//@   ghost glisted []discovery.SegmentRef = nil
+//@   ghost gemit bool = false
+//@   at getLister#1 before start
+//@   at ListCompleted#1 after set glisted = ret0
+//@   at filterSegments#1 before assert [C36.select_filters_all_listed_segments] sameSlice(arg1, glisted) && arg0 == parsed
+//@   at filterSegments#1 before assert [C36.select_time_bounds_without_last] parsed.Last == "" ==> arg2 == parsed.TsMin && arg3 == parsed.TsMax
+//@   at enforceScanLimits#1 after cut
+//@   at buildRowValues#1 before set gemit = true
+//@   at buildRowValues#1 before assert [C36.row_emitted_only_if_matching] rowMatches(record.Timestamp, record.Offset, timeMin, timeMax, parsed.OffsetMin, parsed.OffsetMax)
+//@   at buildRowValues#1 before assert [C36.row_built_from_the_record] arg1.left == record
+//@   at loopstep#2 assert [C36.row_emitted_if_matching] rowMatches(record.Timestamp, record.Offset, timeMin, timeMax, parsed.OffsetMin, parsed.OffsetMax) ==> gemit
+//@   ghost grow [][]byte = nil
+//@   at buildRowValues#1 after set grow = ret0
+//@   at append#1 before assert [C36.order_mode_collects_row] parsed.OrderBy != "" && sameSlice(row.values, grow) && row.ts == record.Timestamp
+//@   at appendTailRow#1 before assert [C36.tail_mode_keeps_last_n] parsed.OrderBy == "" && tailCount > 0 && arg2 == tailCount && sameSlice(arg1.values, grow)
+//@   at send#2 before assert [C36.plain_mode_sends_row] parsed.OrderBy == "" && tailCount <= 0 && sameSlice(as(arg2, "*pgproto3.DataRow").Values, grow)
+//@   at send#2 before assert [C36.limit_never_exceeded] sent == 0 || sent < limit
+//@   loop 1 invariant sent >= 0 && (sent == 0 || sent < limit)
+//@   loop 2 invariant sent >= 0 && (sent == 0 || sent < limit)
